@@ -358,6 +358,19 @@ def run_machine(draws, state, tier):
                     Field("id", Int),
                     Field("created", String, [_Arg("tz", String)])],
                     interfaces=[node7])
+            if "badnames" in flavour:
+                # names no SDL document can spell (the lexer would refuse
+                # them): only schema validation stands between them and the
+                # clients -- three violations of "well-formed names"
+                from py_gql.schema import Argument as _A9
+                from py_gql.schema import InputField, InputObjectType
+                in9 = InputObjectType("In9", [
+                    InputField("ok", Int), InputField("bad-name", Int),
+                    InputField("__reserved", Int)])
+                members["in9"] = in9
+                members["t9"] = ObjectType("T9", [
+                    Field("f", Int, [_A9("arg", in9)]),
+                    Field("trailing\n", Int)])
             if "union" in flavour:
                 members["u"] = UnionType("AnyOf", [foo1, bar])
             baz = ObjectType("Baz", [Field("foo", foo1), Field("bar", bar)])
@@ -380,7 +393,7 @@ def run_machine(draws, state, tier):
             return ("valid", ())
 
         flavour = [f for f in ("dup", "noimpl", "union", "sharedfield",
-                               "ifaceown")
+                               "ifaceown", "badnames")
                    if st.chance(1, 2, "flavour_" + f)]
         verdicts = []
         for _k in range(4):
@@ -393,6 +406,23 @@ def run_machine(draws, state, tier):
         elif len(set(verdicts)) > 1:
             V.append(Violation(P, "order_dependent_verdict", ("messages",),
                                "code-built %r: %r" % (flavour, verdicts)))
+        # ("dup": Schema() itself refuses two objects bearing one name, before
+        # any validation -- nothing else is reported then)
+        if "badnames" in flavour and "dup" not in flavour and not V:
+            bad = [m for m in verdicts[0][1]
+                   if "bad-name" in m or "__reserved" in m
+                   or "trailing" in m]
+            if verdicts[0][0] == "valid":
+                V.append(Violation(
+                    P, "labelled_verdict", ("accepted-invalid", "code-built"),
+                    "a code-built schema with three ill-formed member names "
+                    "was accepted"))
+            elif len(bad) < 3:
+                V.append(Violation(
+                    P, "reported_together", ("fewer", "names"),
+                    "three ill-formed names (input fields 'bad-name' and "
+                    "'__reserved', field 'trailing\\n'), reported: %r" % (
+                        bad,)))
         res.count("probe:code_built_order_cases")
     elif scenario == 1:
         # ---- supply-order independence on labelled invalid documents ------
